@@ -130,7 +130,11 @@ func PlayMulti(beh M, rng *rand.Rand, proj *Projection) ([][]M, error) {
 		if overlap && c%2 == 1 {
 			user = fmt.Sprintf("user%d_with_a_rather_long_name", c+1)
 		}
-		send(c, M{"t": "Startup", "term": true, "kvs": []any{M{"k": "user", "v": user}, M{"k": "database", "v": fmt.Sprintf("db%d", c+1)}}}, !overlap)
+		kvs := []any{M{"k": "user", "v": user}, M{"k": "database", "v": fmt.Sprintf("db%d", c+1)}}
+		if c%2 == 0 {
+			kvs = append(kvs, M{"k": "application_name", "v": fmt.Sprintf("app%d", c+1)})
+		}
+		send(c, M{"t": "Startup", "term": true, "kvs": kvs}, !overlap)
 	}
 	if overlap {
 		for c := 0; c < nc; c++ {
@@ -212,10 +216,25 @@ func PlayMulti(beh M, rng *rand.Rand, proj *Projection) ([][]M, error) {
 		}
 	}
 	s.releaseAll()
+	if I(beh, "_i")%3 == 2 {
+		// a connection accepted after the others are in their sessions: it starts up like the others did
+		late := x.Dial()
+		late.Send(pgw.Startup(pgw.Version30, [][2]string{{"user", "late"}, {"application_name", "late-batch"}}, true))
+		late.WaitQuiet(WaitTimeout) //nolint
+		defer func() { late.CloseClient(); late.WaitClosed(WaitTimeout) }() //nolint
+	}
 	for c := 0; c < nc; c++ {
 		if !conns[c].ServerClosed() {
 			if _, err := conns[c].WaitQuiet(WaitTimeout); err != nil {
 				x.Log.Append(mem.Ev{"k": "wedged", "conn": conns[c].ID})
+			}
+			if I(beh, "_i")%2 == 1 && S(cfg, "auth") != "clear" {
+				// the sessions end with Terminate: the terminate hook runs once for each of them
+				send(c, M{"t": "X"}, false)
+				if conns[c].WaitClosed(WaitTimeout) != nil {
+					x.Log.Append(mem.Ev{"k": "wedged", "conn": conns[c].ID})
+				}
+				continue
 			}
 			conns[c].CloseClient()
 			if conns[c].WaitClosed(WaitTimeout) != nil {
